@@ -354,6 +354,9 @@ def check(fx, rep, tier):
         if table is not None:
             check_usage_laws(fx, r2, "R02.2", usages, table, want_upper_bound=False)
         check_absorption(mm, r2)
+        from .c16 import check_structural_equality
+
+        check_structural_equality(fx, r2, "R02.2")
     # rows sorted on insertion
     from .c12 import check_r121
 
